@@ -5,7 +5,7 @@ import jax, jax.numpy as jnp, equinox as eqx
 from fractions import Fraction
 from .. import terms as tm
 from ..terms import const, add, mul, neg, sub, eq, ite
-from ..nets import mk_pinn
+from ..nets import mk_pinn, D
 from ..harness import flat_terms
 
 INFO = dict(
@@ -268,6 +268,16 @@ def run_system(cfg, R):
             if not a_nn: G.append(("IC gradient w.r.t. network a is zero when a's key excludes nn_params", tm.conj([eq(t, const(0, "Real")) for t in za])))
             if not b_nn: G.append(("IC gradient w.r.t. network b is zero when b's key excludes nn_params", tm.conj([eq(t, const(0, "Real")) for t in zb])))
             if not a_th and not b_th: G.append(("IC gradient w.r.t. theta is zero when no key selects it", eq(O.eq_params["theta"][()], const(0, "Real"))))
+            # exact routing of the shared equation parameter: the sum, over the unknowns whose OWN key selects theta, of that unknown's contribution
+            sysA, pA = A[0], A[1]
+            th = pA.eq_params["theta"][()]
+            want = const(0, "Real")
+            for k, sel in (("a", a_th), ("b", b_th)):
+                if not sel: continue
+                t0, u0 = sysA.u_constraints_dict[k].initial_condition
+                Dk = D(pA.nn_params[k], [t0[()]])
+                want = add(want, mul(const(2, "Real"), mul(sub(mul(Dk, th), u0[0]), Dk)))
+            G.append(("IC gradient w.r.t. theta == sum of the contributions of the unknowns whose own key selects it", eq(O.eq_params["theta"][()], want)))
             return G
         def twins(A, O, a_nn=a_nn, b_nn=b_nn):
             tw = []
